@@ -148,7 +148,7 @@ func main() {
 				r.Violations = append(r.Violations, rt.Violation{Kind: kind, Key: key, Step: step,
 					Detail: "conflicting unsynchronised accesses by two logically concurrent operations: " + rep.Pair()})
 			}
-			if r.Status == "budget" || r.Status == "stalled" {
+			if r.Status == "budget" || r.Status == "stalled" || r.Status == "foreign" {
 				// a discarded run reports nothing
 				r.Violations = nil
 			}
